@@ -431,6 +431,10 @@ func (t *tfRun) do(op []string) (string, string, bool) {
 			t.tf.DeleteCursorToEndOfLine()
 		case "reset":
 			t.tf.Reset()
+		case "nocb":
+			// the application installs no callbacks: the other branches of HandleEvent / checkChanged
+			t.tf.OnChange = nil
+			t.tf.OnSubmit = nil
 		case "seg":
 			// the three segmentation laws asked of uniseg, on one text: the widget is not touched
 			idl, pok := parseIds(op[1])
@@ -859,6 +863,10 @@ func run(r *hx.Run) error {
 			start = randIds(12, false)
 		}
 		var ops [][]string
+		if kind == "tf" && i%8 == 0 {
+			// no callbacks installed (round 4)
+			ops = append(ops, []string{"nocb"})
+		}
 		for j := 0; j < n; j++ {
 			if kind == "tf" {
 				switch x := rng.Intn(20); {
@@ -1245,6 +1253,9 @@ func run(r *hx.Run) error {
 			}
 			n := rng.Range(1, 40)
 			var ops [][]string
+			if kind == "tfc" && i%8 == 0 {
+				ops = append(ops, []string{"nocb"})
+			}
 			for j := 0; j < n; j++ {
 				if kind == "tfc" {
 					switch x := rng.Intn(20); {
